@@ -110,23 +110,23 @@ type Op struct {
 
 // SeqScn is a single-client sequential history.
 type SeqScn struct {
-	Kind    string        `json:"kind"` // which property's workload generated it
-	Cfg     SrvCfg        `json:"cfg"`
-	Tree    []TreeEnt     `json:"tree"`
-	Cred    Cred          `json:"cred"`
-	Addr    string        `json:"addr,omitempty"`
-	Ops     []Op          `json:"ops"`
-	ThinkM  int           `json:"think_ms"`       // client think time between operations
-	Diff    bool          `json:"diff,omitempty"` // C02: lock-step differential against a cache-less server
-	Faults  []simfs.Fault `json:"faults,omitempty"`
-	Direct  *HandleScn    `json:"direct,omitempty"` // C05/C06: direct concurrent drive of the handle table instead of a request history
-	Race    *AttrRaceScn  `json:"race,omitempty"`   // C11: concurrent SETATTR requests for one object instead of a request history
-	CRace   *CreateRaceScn `json:"crace,omitempty"` // C03: concurrent CREATE requests for one name instead of a request history
-	Conc    *C29Scn        `json:"conc,omitempty"`  // C02/C04/C07/C26: a concurrent phase (C29's workload, caches on) followed by a fresh client's look at every name
-	Sched   SchedCfg      `json:"sched"`
-	Segment bool          `json:"segment,omitempty"`
-	UpdAt   int           `json:"upd_at,omitempty"` // runtime option update before this op index (0 = none)
-	UpdCfg  *SrvCfg       `json:"upd_cfg,omitempty"`
+	Kind    string         `json:"kind"` // which property's workload generated it
+	Cfg     SrvCfg         `json:"cfg"`
+	Tree    []TreeEnt      `json:"tree"`
+	Cred    Cred           `json:"cred"`
+	Addr    string         `json:"addr,omitempty"`
+	Ops     []Op           `json:"ops"`
+	ThinkM  int            `json:"think_ms"`       // client think time between operations
+	Diff    bool           `json:"diff,omitempty"` // C02: lock-step differential against a cache-less server
+	Faults  []simfs.Fault  `json:"faults,omitempty"`
+	Direct  *HandleScn     `json:"direct,omitempty"` // C05/C06: direct concurrent drive of the handle table instead of a request history
+	Race    *AttrRaceScn   `json:"race,omitempty"`   // C11: concurrent SETATTR requests for one object instead of a request history
+	CRace   *CreateRaceScn `json:"crace,omitempty"`  // C03: concurrent CREATE requests for one name instead of a request history
+	Conc    *C29Scn        `json:"conc,omitempty"`   // C02/C04/C07/C26: a concurrent phase (C29's workload, caches on) followed by a fresh client's look at every name
+	Sched   SchedCfg       `json:"sched"`
+	Segment bool           `json:"segment,omitempty"`
+	UpdAt   int            `json:"upd_at,omitempty"` // runtime option update before this op index (0 = none)
+	UpdCfg  *SrvCfg        `json:"upd_cfg,omitempty"`
 }
 
 type handleRef struct {
